@@ -27,6 +27,9 @@ META = {
 
 def register(reg):
     c05.register(reg)
+    from contracts import events_contracts
+    if "hippolyzer.lib.base.events:Event.notify" not in reg.fns:
+        events_contracts.register_p(reg, "C19", also=["C07"])
     tr = reg.fns["hippolyzer.lib.base.message.circuit:Circuit.track_reliable"]
     tr.also.append(PID)
     tr.record_as = "track_reliable"
